@@ -248,6 +248,20 @@ class TFailIf(_TOp):
         return TData(["failif", data.data, bad])
 
 
+class TOpConsume(_TOp):
+    """Operation that consumes an iterable parameter `chunks` (C10: a one-shot iterator in the context)."""
+
+    def _process_logic(self, data, chunks):
+        return TData(["consume", data.data, list(chunks)])
+
+
+class TOpDrain(_TOp):
+    """Operation whose input data wraps a one-shot iterator and drains it (C10)."""
+
+    def _process_logic(self, data):
+        return TData(["drain", list(data.data)])
+
+
 # ---------------------------------------------------------------------------------------------
 # probes
 # ---------------------------------------------------------------------------------------------
